@@ -3,7 +3,7 @@
    uint64_t) and the templates (word |= ...; *ptr = word; id/dlc bit-fields;
    per-signal decode).  Arithmetic on Z with every C conversion written out.
    No proofs here. *)
-From Coq Require Import String ZArith List Bool.
+From Coq Require Import String Ascii ZArith List Bool.
 From FcpV Require Import Base.Bits Schema.Types Layout.Packed.
 Import ListNotations.
 Open Scope Z_scope.
@@ -21,13 +21,19 @@ Definition std_width (n : nat) : bool := Nat.eqb n 8 || Nat.eqb n 16 || Nat.eqb 
 (* ceil_to_power_of_2: 8 for x <= 8, else the next power of two *)
 Definition ceil_pow2_8 (x : Z) : Z := if x <=? 8 then 8 else 2 ^ Z.log2_up x.
 
+Definition starts_with_i (s : string) : bool :=
+  match s with String a _ => Ascii.eqb a "i"%char | EmptyString => false end.
+
 Definition kind_of (p : piece) : ckind :=
   match pty p with
   | SU n => if std_width n then KU (Z.of_nat n) else KUnknownType
   | SI n => if std_width n then KI (Z.of_nat n) else KKeyError
   | SF32 => KF32
   | SF64 => KF64
-  | SEnumRef _ => KU (ceil_pow2_8 (plen p))
+  | SEnumRef name =>
+      (* is_signed() is `type.name.startswith("i")`: an enum whose NAME begins with the letter i counts as signed, and a signed
+         non-built-in type looks up type_map["i"] (finding c-enum-name-i) *)
+      if starts_with_i name then KKeyError else KU (ceil_pow2_8 (plen p))
   | _ => KUnknownType
   end.
 
